@@ -364,7 +364,7 @@ def oracle_table(case, real):
 #  tree cases: random compositions and histories
 # ------------------------------------------------------------------------------------------------
 # (table key, kind) ; kind: leaf | plain composite (estimator-valued parameters) | meta (named components)
-EXTERNAL_CLASSES = {"LinearRegression": ("sklearn.linear_model", ["copy_X", "fit_intercept", "n_jobs", "positive"])}
+EXTERNAL_CLASSES = {"LinearRegression": ("sklearn.linear_model",)}
 POOL = {
     "NaiveForecaster": {"est": []},
     "PolynomialTrendForecaster": {"est": ["regressor"]},
@@ -401,7 +401,8 @@ def pool_classes():
     out = {}
     for key, spec in POOL.items():
         if key in EXTERNAL_CLASSES:
-            out[key] = dict(spec, params=EXTERNAL_CLASSES[key][1], impl="p")
+            xc = getattr(importlib.import_module(EXTERNAL_CLASSES[key][0]), key)
+            out[key] = dict(spec, params=sorted(xc._get_param_names()), impl="p")
             continue
         if key not in T["summary"]:
             continue
